@@ -290,10 +290,16 @@ pub fn verify_flush_points(plan: &DefPlan, run: &DefRun, body_off: usize) -> Opt
 
 pub fn case(tape: &[u8], ctx: &Ctx) -> Outcome {
     let mut o = Outcome::new();
+    let (tape, copy) = split_copy_suffix(tape);
     let mut t = Tape::new(tape);
     let mut po = PlanOpts::standard();
     po.allow_dict = true;
-    let plan = gen_plan(&mut t, &po);
+    let mut plan = gen_plan(&mut t, &po);
+    if let Some(b) = copy {
+        apply_copy(&mut plan, b);
+        o.class("session with deflateCopy-and-continue");
+    }
+    let plan = plan;
     let api = t.below(8);
     ARENAS.with(|ar| {
         let (run, api_name, gz_applied) = if api == 0 {
